@@ -1,6 +1,6 @@
 """C11 — distributed matrix algebra."""
 TARGETS = {
-    "c11_algebra": dict(src="mpi/c11_algebra.cpp", flavors=["mpi"], run_flavors=["mpi"], ranks=[1, 2, 3, 4, 5, 8], ranks_thorough=[1, 2, 3, 4, 5, 6, 7, 8]),
+    "c11_algebra": dict(src="mpi/c11_algebra.cpp", flavors=["mpi"], run_flavors=["mpi"], ranks=[1, 2, 3, 4, 5, 8], enum_ranks=[1, 2, 3, 4], ranks_thorough=[1, 2, 3, 4, 5, 6, 7, 8]),
 }
 PROPS = {
     "C11": dict(
